@@ -150,8 +150,18 @@ def gen_case_c04(seed, tier):
     ts = rs.all_targets(spec)
     if rng.chance(0.3) and len(ts) >= 3:
         add_require_provide(rng, spec)
+    inj = None
+    if rng.chance(0.2):
+        # one failing command plus a consumer that reaches it only through `deps`: with --keep_going
+        # nothing may be handed to a builder once a dependency has failed
+        gen = [(p, t) for p, t in rs.all_targets(spec) if t["kind"] == "genrule"]
+        if gen:
+            p_, t_ = rng.choice(gen)
+            t_["fail"] = True
+            inj = {"kind": "cmd", "bad": [rs.label(p_, t_["name"])], "bad_pkgs": [], "cycle": []}
+            add_failure_consumer(rng, spec, inj)
     tests = []
-    if rng.chance(0.3):
+    if inj is None and rng.chance(0.3):
         # a few tests whose data are targets of the DAG: `plz test` must run each test command once, after
         # everything it needs has been built
         for k in range(rng.rng(1, 3)):
@@ -161,10 +171,16 @@ def gen_case_c04(seed, tier):
             spec["pkgs"][pkg]["targets"].append({"name": name, "kind": "gentest", "srcs": [], "deps": [], "outs": [], "salt": "t", "data": ["t:" + rs.label(dp, dt["name"])], "test_cmd": "@TEST@"})
             tests.append(rs.label(pkg, name))
     req = pick_request(rng, spec)
+    if inj is not None:
+        req = ["//..."]
     nrun = 3 if tier == "quick" else 8
     runs = []
     for j in range(nrun):
         threads = rng.choice([1, 2, 3, 4, 8, 16])
+        if inj is not None:
+            args = ["build"] + req + BASE_ARGS + ["-n", str(threads), "--keep_going"]
+            runs.append({"args": args, "seed": subseed(seed, "run%d" % j), "policy": "", "num_stalls": 0, "mode": "failing"})
+            continue
         if tests and rng.chance(0.6):
             # (for `plz test`, -n is the number of test runs; threads need the long flag)
             args = ["test"] + (tests if rng.chance(0.5) else ["//..."]) + BASE_ARGS + ["--num_threads", str(threads)]
@@ -179,7 +195,7 @@ def gen_case_c04(seed, tier):
             if rng.chance(0.3):
                 args.append("--keep_going")
         runs.append({"args": args, "seed": subseed(seed, "run%d" % j), "policy": "", "num_stalls": 1 if rng.chance(0.25) else 0})
-    return {"spec": spec, "req": req, "runs": runs}
+    return {"spec": spec, "req": req, "runs": runs, "inj": inj}
 
 
 def add_require_provide(rng, spec):
@@ -265,7 +281,13 @@ def exec_case_c04(bindir, case, only_run=None):
                 # `plz test` builds the requested TESTS and what they need, nothing else
                 treq = [l for l in rs.expand_request(espec, [a for a in run["args"][1:] if a.startswith("//")])
                         if (rs.find_target(espec, l) or (None, {"kind": ""}))[1]["kind"] == "gentest"]
-            vs = oracle_c04(espec, treq, res, read_log(log), None if (is_query or is_test) else read_trace_file(tf), fresh=not is_query, query=is_query, test=is_test)
+            if case.get("inj"):
+                # repositories with a failing command: the ordering half of the property
+                keep = ("ran-twice", "ran-after-failed-dep", "dependant-built-after-failure", "hang", "exit-zero-on-failure")
+                vs = [(c, d) for (c, d) in oracle_c05(espec, case["req"], case["inj"], res, read_log(log)) if c in keep]
+                stats["failing_runs"] = stats.get("failing_runs", 0) + 1
+            else:
+                vs = oracle_c04(espec, treq, res, read_log(log), None if (is_query or is_test) else read_trace_file(tf), fresh=not is_query, query=is_query, test=is_test)
             stats["test_runs"] = stats.get("test_runs", 0) + (1 if is_test else 0)
             st = res.stats
             stats["query_runs"] = stats.get("query_runs", 0) + (1 if is_query else 0)
@@ -300,7 +322,7 @@ def case_c04(bindir, seed, index, tier, extra):
     if index < 3:
         r.sample = {"request": case["req"], "targets": [rs.label(p, t["name"]) + " <- " + ",".join(t["srcs"]) for p, t in rs.all_targets(case["spec"])], "runs": [x["args"] for x in case["runs"]]}
     for (c, d, j, run2) in vs[:1]:
-        rcase = {"spec": case["spec"], "req": case["req"], "runs": [run2 if isinstance(run2, dict) else case["runs"][j]]}
+        rcase = {"spec": case["spec"], "req": case["req"], "runs": [run2 if isinstance(run2, dict) else case["runs"][j]], "inj": case.get("inj")}
         rcase = minimise_c04(bindir, rcase, c)
         r.violations.append(Violation(c, d, {"engine": "schedsim", "case": rcase}))
     return r
